@@ -913,15 +913,20 @@ func (c Identifiers[V]) AddArgs(names []string, outersUsed *[]string) Identifier
 		ident, ok := c(name)
 		if outersUsed != nil {
 			if ok && !ident.IsConst {
+				// an attribute of the map given to GenerateWithMap uses the map itself
+				outer := name
+				if ident.ThisName != "" {
+					outer = ident.ThisName
+				}
 				found := false
 				for _, n := range *outersUsed {
-					if n == name {
+					if n == outer {
 						found = true
 						break
 					}
 				}
 				if !found {
-					*outersUsed = append(*outersUsed, name)
+					*outersUsed = append(*outersUsed, outer)
 				}
 			}
 		}
